@@ -117,6 +117,8 @@ class WindowProbe(RunningWindowDebiaser):
     def apply_on_window(self, obs, cm_hist, cm_future, **kwargs):
         if (cm_future == M_ERR).any():
             raise ProbeError("marker in this window")
+        if (cm_future == M_ERR2).any():
+            raise ValueError("marker 98 in this window")  # a user-defined failure of a built-in exception class
         return cm_future + (obs.mean() - cm_hist.mean())
 
 
@@ -333,6 +335,47 @@ def relayout(a, kind):
         out = np.ascontiguousarray(a)
     assert out.shape == a.shape and np.array_equal(out, a, equal_nan=True)
     return out
+
+
+ALIASES = ("cm_future is cm_hist", "cm_hist is obs", "cm_hist and cm_future are overlapping slices of one array",
+           "cm_hist is a slice of cm_future", "obs and cm_hist are overlapping slices of one array")
+
+
+def alias_args(alias, o, h, f, n0=0):
+    """fresh arrays with the given memory relation between the arguments, carrying the logical values (o, h, f).
+    overlapping slices: x = buf[:len(x)], y = buf[n0:] of one buffer (the logical values must agree on the overlap)"""
+    o, h, f = o.copy(), h.copy(), f.copy()
+    if alias == "cm_future is cm_hist":
+        return o, h, h
+    if alias == "cm_hist is obs":
+        return o, o, f
+    if alias == "cm_hist and cm_future are overlapping slices of one array":
+        buf = np.concatenate([h[:n0], f])
+        return o, buf[: h.shape[0]], buf[n0:]
+    if alias == "cm_hist is a slice of cm_future":
+        return o, f[: h.shape[0]], f
+    if alias == "obs and cm_hist are overlapping slices of one array":
+        buf = np.concatenate([o[:n0], h])
+        return buf[: o.shape[0]], buf[n0:], f
+    return o, h, f
+
+
+# which inputs a debiaser hands to `distribution.fit` (tas settings: scipy.stats.norm) — read off the source of apply_on_window
+FITTED = {"QuantileMapping": ("obs", "hist"), "rw/QuantileMapping": ("obs", "hist"), "ECDFM": ("obs", "hist", "fut"),
+          "ScaledDistributionMapping": ("obs", "hist", "fut"), "QuantileDeltaMapping": ("obs", "hist")}
+
+
+def fit_rejects(column):
+    """independent ground truth for a built-in failure: does scipy's fit reject this series? -> exception class name | None"""
+    import scipy.stats
+
+    with warnings.catch_warnings():
+        warnings.simplefilter("ignore")
+        try:
+            scipy.stats.norm.fit(np.asarray(column, dtype=float))
+        except Exception as ex:  # noqa: BLE001
+            return type(ex).__name__
+    return None
 
 
 def snapshot(deb):
